@@ -2,6 +2,7 @@
 # usage: try_seed.sh <seed-id> <check> [tier]  -- apply the seeded patch to /repo, run the check, undo
 id=$1; chk=$2; tier=${3:-quick}
 cd /verif
+[ -z "$(git -C /repo status --porcelain)" ] || { echo "refusing: /repo has uncommitted changes"; exit 2; }
 git -C /repo apply /verif/seeded/$id/patch.diff || { echo "$id: patch does not apply"; exit 2; }
 ./check $chk --tier $tier > /tmp/try_${id}_$chk.log 2>&1; rc=$?
 git -C /repo checkout -- . 
